@@ -564,7 +564,16 @@ func (it *orderedIter) next() tuple {
 
 func newOrderedIter(ctx *pathCtx, es []mapEntry) iter {
 	sort.SliceStable(es, func(i, j int) bool { return es[i].s < es[j].s })
-	if ctx != nil && ctx.mapOrder && len(es) >= 2 {
+	if ctx != nil && ctx.mapMode != 0 && len(es) >= 2 {
+		switch ctx.mapMode {
+		case 1: // descending
+			for i, j := 0, len(es)-1; i < j; i, j = i+1, j-1 {
+				es[i], es[j] = es[j], es[i]
+			}
+		case 2: // rotated by one
+			es = append(es[1:], es[0])
+		}
+	} else if ctx != nil && ctx.mapOrder && len(es) >= 2 {
 		if len(es) > 4 {
 			unsupp("map-order fork over %d entries (bound is 4)", len(es))
 		}
